@@ -578,7 +578,15 @@ impl Tracer {
         tracee.step(None)?;
 
         let reason = loop {
-            let tracee = self.tracee_ctl.tracee_ensure_mut(pid);
+            let Some(tracee) = self.tracee_ctl.tracee_mut(pid) else {
+                // The stepped thread reached its exit inside this step: it has been removed when
+                // its PTRACE_EVENT_EXIT was handled, the next thing it reports is its end.
+                let status = waitpid(pid, None).map_err(Waitpid)?;
+                match self.apply_new_status(tcx, status)? {
+                    Some(StopReason::DebugeeExit(code)) => return Err(ProcessExit(code)),
+                    _ => break None,
+                }
+            };
             let status = tracee.wait_one()?;
             let info = sys::ptrace::getsiginfo(pid).map_err(Ptrace)?;
 
